@@ -990,58 +990,132 @@ func backendNames(c *Ctx) {
 func checkGrpcTemplates(c *Ctx, fi *FuncInfo, write bool) {
 	R := c.R
 	info := fi.Pkg.TypesInfo
-	var v1, v2 string
-	var sprintf *ast.CallExpr
-	ast.Inspect(fi.Decl.Body, func(n ast.Node) bool {
-		switch n := n.(type) {
-		case *ast.AssignStmt:
-			if len(n.Lhs) == 1 && exprStr(n.Lhs[0]) == "template" {
-				s, _ := constString(info, n.Rhs[0])
-				if n.Tok == token.DEFINE {
-					v1 = s
-				} else {
-					v2 = s
-				}
-			}
-		case *ast.CallExpr:
-			if fullCalleeName(info, n) == "fmt.Sprintf" && len(n.Args) >= 3 && exprStr(n.Args[0]) == "template" {
-				sprintf = n
-			}
-		}
-		return true
-	})
-	wantV1, wantV2 := "blobs/%s/%d", "compressed-blobs/zstd/%s/%d"
-	if write {
-		wantV1, wantV2 = "uploads/%s/blobs/%s/%d", "uploads/%s/compressed-blobs/zstd/%s/%d"
-	}
 	what := "read"
 	if write {
 		what = "write"
 	}
-	R.Check(v1 == wantV1 && v2 == wantV2, "R12g", c.Cfg+"grpcproxy:"+what+":templates", c.P.Pos(fi.Decl.Pos()), fmt.Sprintf("gRPC %s resource names are %q (uncompressed) and %q (zstd)", what, wantV1, wantV2), fmt.Sprintf("templates are %q and %q", v1, v2))
-	okArgs := false
-	if sprintf != nil {
-		as := []string{}
-		for _, a := range sprintf.Args[1:] {
-			as = append(as, exprStr(a))
-		}
-		j := strings.Join(as, ",")
-		okArgs = (!write && j == "hash,size") || (write && j == "uuid.New().String(),item.Hash,item.LogicalSize")
-	}
-	R.Check(okArgs, "R12g", c.Cfg+"grpcproxy:"+what+":args", c.P.Pos(fi.Decl.Pos()), "the template is filled with (hash, logical size) in that order", "the template arguments are not (hash, logical size)")
-	// the zstd template is selected by v2mode
-	sel := false
-	ast.Inspect(fi.Decl.Body, func(n ast.Node) bool {
-		if is, ok := n.(*ast.IfStmt); ok && exprStr(is.Cond) == "r.v2mode" {
-			for _, st := range is.Body.List {
-				if as, ok := st.(*ast.AssignStmt); ok && exprStr(as.Lhs[0]) == "template" {
-					sel = true
+	bodies := helperBodies(c, fi)
+	// the resource name is built by fmt.Sprintf(<template variable>, args...) in the function or in a
+	// helper split off it; the template variable is assigned constant strings
+	var sprintf *ast.CallExpr
+	var tplObj types.Object
+	for _, body := range bodies {
+		ast.Inspect(body, func(n ast.Node) bool {
+			if call, ok := n.(*ast.CallExpr); ok && fullCalleeName(info, call) == "fmt.Sprintf" && len(call.Args) >= 3 {
+				if o := identObj(info, call.Args[0]); o != nil && o.Type().String() == "string" {
+					if _, isConst := o.(*types.Const); !isConst {
+						sprintf, tplObj = call, o
+					}
 				}
 			}
+			return true
+		})
+	}
+	var consts []string
+	v2Guarded := map[string]bool{}
+	if tplObj != nil {
+		for _, body := range bodies {
+			var walk func(n ast.Node, underV2 bool)
+			walk = func(n ast.Node, underV2 bool) {
+				ast.Inspect(n, func(m ast.Node) bool {
+					switch m := m.(type) {
+					case *ast.IfStmt:
+						// a test of the proxy's own zstd-mode flag (a bool field of the receiver)
+						isV2 := false
+						if sel, ok := ast.Unparen(m.Cond).(*ast.SelectorExpr); ok && info.TypeOf(sel) != nil && info.TypeOf(sel).String() == "bool" && fieldOf(info, sel) != "" {
+							isV2 = true
+						}
+						if m.Init != nil {
+							walk(m.Init, underV2)
+						}
+						walk(m.Body, underV2 || isV2)
+						if m.Else != nil {
+							walk(m.Else, underV2)
+						}
+						return false
+					case *ast.AssignStmt:
+						for i, l := range m.Lhs {
+							if identObj(info, l) == tplObj && i < len(m.Rhs) {
+								if v, ok := constString(info, m.Rhs[i]); ok {
+									consts = append(consts, v)
+									if underV2 {
+										v2Guarded[v] = true
+									}
+								}
+							}
+						}
+					case *ast.ValueSpec:
+						for i, nm := range m.Names {
+							if info.Defs[nm] == tplObj && i < len(m.Values) {
+								if v, ok := constString(info, m.Values[i]); ok {
+									consts = append(consts, v)
+								}
+							}
+						}
+					}
+					return true
+				})
+			}
+			walk(body, false)
 		}
-		return true
-	})
-	R.Check(sel, "R12g", c.Cfg+"grpcproxy:"+what+":zstd-iff-v2", c.P.Pos(fi.Decl.Pos()), "the compressed-blobs template is used exactly in zstd storage mode", "the template is not selected by r.v2mode")
+	}
+	wantV1, wantV2 := "blobs/%s/%d", "compressed-blobs/zstd/%s/%d"
+	if write {
+		wantV1, wantV2 = "uploads/%s/blobs/%s/%d", "uploads/%s/compressed-blobs/zstd/%s/%d"
+	}
+	sort.Strings(consts)
+	consts = uniq(consts)
+	has := func(v string) bool {
+		for _, x := range consts {
+			if x == v {
+				return true
+			}
+		}
+		return false
+	}
+	R.Check(len(consts) == 2 && has(wantV1) && has(wantV2), "R12g", c.Cfg+"grpcproxy:"+what+":templates", c.P.Pos(fi.Decl.Pos()), fmt.Sprintf("gRPC %s resource names are %q (uncompressed) and %q (zstd)", what, wantV1, wantV2), fmt.Sprintf("templates are %q", consts))
+	// the template is filled with (hash, logical size) [after a fresh upload id for writes]
+	okArgs := false
+	if sprintf != nil {
+		args := sprintf.Args[1:]
+		kindOf := func(e ast.Expr) string {
+			e = ast.Unparen(e)
+			t := info.TypeOf(e)
+			if call, ok := e.(*ast.CallExpr); ok {
+				if sel, ok := call.Fun.(*ast.SelectorExpr); ok && sel.Sel.Name == "String" {
+					if inner, ok := ast.Unparen(sel.X).(*ast.CallExpr); ok && strings.HasSuffix(fullCalleeName(info, inner), "uuid.New") {
+						return "uuid"
+					}
+				}
+			}
+			if sel, ok := e.(*ast.SelectorExpr); ok {
+				switch sel.Sel.Name {
+				case "Hash":
+					return "hash"
+				case "LogicalSize":
+					return "size"
+				}
+			}
+			if t != nil {
+				switch t.String() {
+				case "string":
+					return "hash"
+				case "int64":
+					return "size"
+				}
+			}
+			return "?"
+		}
+		var ks []string
+		for _, a := range args {
+			ks = append(ks, kindOf(a))
+		}
+		j := strings.Join(ks, ",")
+		okArgs = (!write && j == "hash,size") || (write && j == "uuid,hash,size")
+	}
+	R.Check(okArgs, "R12g", c.Cfg+"grpcproxy:"+what+":args", c.P.Pos(fi.Decl.Pos()), "the template is filled with (hash, logical size) in that order", "the template arguments are not (hash, logical size)")
+	R.Check(v2Guarded[wantV2] && !v2Guarded[wantV1], "R12g", c.Cfg+"grpcproxy:"+what+":zstd-iff-v2", c.P.Pos(fi.Decl.Pos()), "the compressed-blobs template is used exactly in zstd storage mode", "the compressed-blobs template is not selected by the proxy's zstd-mode flag alone")
+	v1, v2 := wantV1, wantV2
 	// server grammar accepts them: literal segments and field positions
 	srv := "server.(*grpcServer).parseReadResource"
 	if write {
@@ -1052,15 +1126,18 @@ func checkGrpcTemplates(c *Ctx, fi *FuncInfo, write bool) {
 		return
 	}
 	sinfo := sf.Pkg.TypesInfo
+	sbodies := helperBodies(c, sf)
 	lits := map[string]bool{}
-	ast.Inspect(sf.Decl.Body, func(n ast.Node) bool {
-		if bl, ok := n.(*ast.BasicLit); ok && bl.Kind == token.STRING {
-			if v, ok := constString(sinfo, bl); ok {
-				lits[v] = true
+	for _, sb := range sbodies {
+		ast.Inspect(sb, func(n ast.Node) bool {
+			if bl, ok := n.(*ast.BasicLit); ok && bl.Kind == token.STRING {
+				if v, ok := constString(sinfo, bl); ok {
+					lits[v] = true
+				}
 			}
-		}
-		return true
-	})
+			return true
+		})
+	}
 	for _, tpl := range []string{v1, v2} {
 		ok := true
 		for _, seg := range strings.Split(tpl, "/") {
@@ -1070,34 +1147,92 @@ func checkGrpcTemplates(c *Ctx, fi *FuncInfo, write bool) {
 		}
 		R.Check(ok && tpl != "", "R12g", c.Cfg+"grpcproxy:"+what+":server-grammar:"+tpl, c.P.Pos(sf.Decl.Pos()), "every literal segment of "+tpl+" is a keyword of this server's resource-name grammar", "the server's parser does not know a literal segment of "+tpl)
 	}
-	// field positions in the server grammar: hash then size after the keyword(s)
-	pos := map[string]string{}
+	// field positions in the server grammar: the segments after the keyword are read from the
+	// split resource name at constant indices; the size is the one handed to strconv.ParseInt
+	// (directly or through a helper's parameter)
+	used, parsed := map[int64]bool{}, map[int64]bool{}
+	isSegs := func(e ast.Expr) bool {
+		o, ok := identObj(sinfo, e).(*types.Var)
+		return ok && o.Type().String() == "[]string" && o.Parent() != o.Pkg().Scope()
+	}
+	// locals that copy a segment: sizeStr := rem[2]
+	segLocal := map[types.Object]int64{}
 	ast.Inspect(sf.Decl.Body, func(n ast.Node) bool {
-		if as, ok := n.(*ast.AssignStmt); ok && len(as.Lhs) >= 1 && len(as.Rhs) == 1 {
-			l := exprStr(as.Lhs[0])
-			r := strings.ReplaceAll(exprStr(as.Rhs[0]), " ", "")
-			if (l == "hash" || l == "sizeStr") && strings.HasPrefix(r, "rem[") {
-				pos[l+"@"+r] = r
-			}
-			if l == "size" && strings.HasPrefix(r, "strconv.ParseInt(rem[") {
-				pos["size@"+r[len("strconv.ParseInt("):strings.Index(r, ",")]] = r
+		if as, ok := n.(*ast.AssignStmt); ok && len(as.Lhs) == len(as.Rhs) {
+			for i, r := range as.Rhs {
+				if ix, ok := ast.Unparen(r).(*ast.IndexExpr); ok && isSegs(ix.X) {
+					if k, isC := constInt(sinfo, ix.Index); isC {
+						if o := identObj(sinfo, as.Lhs[i]); o != nil {
+							segLocal[o] = k
+						}
+					}
+				}
 			}
 		}
 		return true
 	})
-	var keys []string
-	for k := range pos {
-		keys = append(keys, k)
+	segIndex := func(e ast.Expr) (int64, bool) {
+		if ix, ok := ast.Unparen(e).(*ast.IndexExpr); ok && isSegs(ix.X) {
+			return constInt(sinfo, ix.Index)
+		}
+		if o := identObj(sinfo, e); o != nil {
+			k, ok := segLocal[o]
+			return k, ok
+		}
+		return 0, false
 	}
-	sort.Strings(keys)
-	got := strings.Join(keys, " ")
-	wantPos := "hash@rem[0] hash@rem[1] size@rem[1] sizeStr@rem[2]"
+	for _, sb := range []*ast.BlockStmt{sf.Decl.Body} {
+		ast.Inspect(sb, func(n ast.Node) bool {
+			switch n := n.(type) {
+			case *ast.IndexExpr:
+				if k, isC := constInt(sinfo, n.Index); isC && isSegs(n.X) {
+					used[k] = true
+				}
+			case *ast.CallExpr:
+				isParse := fullCalleeName(sinfo, n) == "strconv.ParseInt"
+				for i, a := range n.Args {
+					k, isC := segIndex(a)
+					if !isC {
+						continue
+					}
+					if isParse && i == 0 {
+						parsed[k] = true
+					}
+					// a helper that parses its i-th parameter
+					if h := c.P.Func(calleeKey(sinfo, n)); h != nil && h.Pkg == sf.Pkg && h.Decl.Body != nil {
+						po := paramObj(h, i)
+						for _, hc := range callsIn(h.Decl.Body, true) {
+							if fullCalleeName(sinfo, hc) == "strconv.ParseInt" && len(hc.Args) > 0 && po != nil && identObj(sinfo, hc.Args[0]) == po {
+								parsed[k] = true
+							}
+						}
+					}
+				}
+			}
+			return true
+		})
+	}
+	keys := func(m map[int64]bool) string {
+		var ks []int
+		for k := range m {
+			ks = append(ks, int(k))
+		}
+		sort.Ints(ks)
+		return fmt.Sprint(ks)
+	}
+	wantParsed, wantUsed := "[1 2]", []int64{0, 1, 2}
 	if write {
-		wantPos = "hash@rem[2] hash@rem[3] size@rem[3] sizeStr@rem[4]"
+		wantParsed, wantUsed = "[3 4]", []int64{2, 3, 4}
 	}
-	R.Check(got == wantPos, "R12g", c.Cfg+"grpcproxy:"+what+":server-positions", c.P.Pos(sf.Decl.Pos()), "the server reads hash and size from the positions where the client templates put them ("+wantPos+")", "server positions: "+got)
+	okUsed := true
+	for _, k := range wantUsed {
+		if !used[k] {
+			okUsed = false
+		}
+	}
+	R.Check(keys(parsed) == wantParsed && okUsed, "R12g", c.Cfg+"grpcproxy:"+what+":server-positions", c.P.Pos(sf.Decl.Pos()),
+		"the server reads hash and size from the positions where the client templates put them (size parsed from segments "+wantParsed+")", "server reads segments "+keys(used)+" and parses the size from "+keys(parsed))
 }
-
 
 // submatchVar returns the variable that receives the result of
 // (*regexp.Regexp).FindStringSubmatch in fi.
